@@ -83,4 +83,6 @@ try:
 finally:
     subprocess.run(["git", "-C", "/repo", "worktree", "remove", "--force", str(wt)], capture_output=True)
     # regenerate Generated files from /repo (a check run against a worktree rewrote them)
+    subprocess.run(["/venv/bin/python", str(V / "tools" / "setup.py"), "--translate-only"], capture_output=True,
+                   env={k: v for k, v in os.environ.items() if k != "MIDGARD_REPO"})
 print("SUMMARY", json.dumps({k: {c: v["exit"] for c, v in r.get("checks", {}).items()} | {"valid": r.get("demo_clean") == 0 and r.get("demo_patched", 0) != 0 and not r.get("suite_missing", ["x"])} for k, r in results.items()}))
